@@ -115,5 +115,13 @@ def influence (s : Solver) (c : Circuit) (n : Name) (ord : Ord)
         | .error e => .error e
         | .ok cnt => .ok (sx, cnt, sp.length))
 
+/-- exact-mode `props.avg_sensitivity(c, n)` for one node: the sum of the influences, as the pair
+    (sum of the counts, number of startpoints); the code returns the sum of the quotients count / 2^k -/
+def avgSensitivity (s : Solver) (c : Circuit) (n : Name) (ord : Ord)
+    (ordE : List (Name × Name) → List (Name × Name)) : Except Outcome (Nat × Nat) :=
+  match influence s c n ord ordE with
+  | .error e => .error e
+  | .ok r => .ok ((r.map (·.2.1)).sum, r.length)
+
 end Props
 end CG
